@@ -44,7 +44,8 @@ def strategy_(draw, shard):
     names = [c["name"] for c in W["channels"]]
     nA = draw(st.integers(1, len(names) - 1)) if len(names) > 1 else 1
     overlap = draw(st.sampled_from(["disjoint", "disjoint", "identical_channel", "conflicting_channel",
-                                    "conflicting_observation", "other_poi", "conflicting_parameter",
+                                    "conflicting_observation", "mergeable_channel", "mergeable_channel",
+                                    "other_poi", "conflicting_parameter",
                                     "other_version", "other_measurement_name"]))
     join = draw(st.sampled_from(JOINS + ["outer", "inner"]))
     merge = draw(st.sampled_from([False, False, True]))
@@ -118,6 +119,21 @@ def split(W, nA, overlap):
         c["samples"][0]["data"] = [v + 1.0 for v in c["samples"][0]["data"]]
         B["channels"].append(c)
         B["observations"].append(copy.deepcopy(A["observations"][0]))
+    elif overlap == "mergeable_channel":
+        # same channel name and observation, but other samples: only merge_channels can combine them
+        c = copy.deepcopy(A["channels"][0])
+        for s_ in c["samples"]:
+            s_["name"] = "m_" + s_["name"]
+            for m in s_["modifiers"]:
+                if m["type"] in ("shapesys",):
+                    m["name"] = "m_" + m["name"]
+        B["channels"].append(c)
+        B["observations"].append(copy.deepcopy(A["observations"][0]))
+        used = {m["name"] for s_ in A["channels"][0]["samples"] for m in s_["modifiers"]}
+        have = {p["name"] for p in B["measurements"][0]["config"]["parameters"]}
+        for p in A["measurements"][0]["config"]["parameters"]:
+            if p["name"] in used and p["name"] not in have:
+                B["measurements"][0]["config"]["parameters"].append(copy.deepcopy(p))
     elif overlap == "conflicting_observation":
         B["channels"].append(copy.deepcopy(A["channels"][0]))
         o = copy.deepcopy(A["observations"][0])
